@@ -1,6 +1,8 @@
 #!/usr/bin/env python3
 """For every seeded change and planned mutant: the smallest run index at which the claimed property's quick check
 reports a violation (how much margin the 1M-run quick tier has). Applies patches to /repo transiently."""
+import os as _os
+_os.environ["VERIF_NO_EVIDENCE"]="1"
 import subprocess, json, glob, os, re, sys
 def sh(c): return subprocess.run(c, shell=True, capture_output=True, text=True)
 REPO=os.environ.get("MUT_REPO","/repo"); VERIF=os.environ.get("MUT_VERIF","/verif"); OUT=os.environ.get("MUT_OUT","/verif/seeded/margins.json")
